@@ -242,48 +242,5 @@ def main(argv=None):
     return 0
 
 
-def serve():
-    """fork server: the interpreter has imported bob once; every request (one JSON
-    line with the argument vector) is answered by a forked child, i.e. by a fresh
-    copy of a process that has parsed nothing yet."""
-    import bob, bob.input, bob.builder, bob.cmds.build.state, bob.cmds.helpers, bob.errors, bob.pathspec  # noqa
-    import sqlite3, pickle  # noqa
-    inp = sys.stdin
-    real_out = os.fdopen(os.dup(1), "w")
-    while True:
-        line = inp.readline()
-        if not line:
-            return 0
-        req = json.loads(line)
-        r, w = os.pipe()
-        sys.stdout.flush()
-        pid = os.fork()
-        if pid == 0:
-            try:
-                os.close(r)
-                os.dup2(w, 1)
-                sys.stdout = os.fdopen(w, "w")
-                try:
-                    main(req["argv"])
-                except SystemExit:
-                    pass
-                except BaseException as e:      # noqa
-                    import traceback
-                    print(json.dumps({"error": "dump-crashed", "slogan": traceback.format_exc()[-1500:]}))
-                sys.stdout.flush()
-            finally:
-                os._exit(0)
-        os.close(w)
-        chunks = []
-        with os.fdopen(r, "r") as fh:
-            chunks.append(fh.read())
-        os.waitpid(pid, 0)
-        data = "".join(chunks).strip().split("\n")[-1] if chunks else ""
-        real_out.write((data or json.dumps({"error": "dump-crashed", "slogan": "no output"})) + "\n")
-        real_out.flush()
-
-
 if __name__ == "__main__":
-    if len(sys.argv) > 1 and sys.argv[1] == "--server":
-        sys.exit(serve())
     sys.exit(main())
